@@ -426,7 +426,7 @@ func H02d() {
 	f, _ := NewFile(FileTypeActivity, NewHeader(V20, true))
 	d.file = f
 	if vBool() {
-		d.opts.unknownFields, d.opts.unknownMessages = true, true
+		vCountingOptions(&d)
 		vMakeMap(&d.unknownFields)
 		vMakeMap(&d.unknownMessages)
 	}
